@@ -27,6 +27,61 @@ use crate::engine::{Probe, PropertyInfo, RunCtx};
 mod domain;
 #[path = "c18/fixture.rs"]
 mod fixture;
+#[path = "c18/guard.rs"]
+mod guard;
+
+static MOAT: std::sync::OnceLock<guard::Moat> = std::sync::OnceLock::new();
+
+pub(crate) fn moat() -> Option<&'static guard::Moat> {
+    MOAT.get()
+}
+
+/// Every JSON string literal of a request line (keys and values, duplicates included; works
+/// on lines that do not parse as a whole).
+fn string_literals_of(line: &[u8]) -> Vec<String> {
+    let mut out = Vec::new();
+    let mut i = 0;
+    while i < line.len() {
+        if line[i] == b'"' {
+            let start = i;
+            i += 1;
+            while i < line.len() && line[i] != b'"' {
+                if line[i] == b'\\' {
+                    i += 1;
+                }
+                i += 1;
+            }
+            let end = (i + 1).min(line.len());
+            let lit = &line[start..end];
+            match serde_json::from_slice::<String>(lit) {
+                Ok(s) => out.push(s),
+                Err(_) => out.push(String::from_utf8_lossy(&lit[1..]).trim_end_matches('"').to_string()),
+            }
+            i = end;
+        } else {
+            i += 1;
+        }
+    }
+    out
+}
+
+/// String guard: may this line be handed to an arbitrary (possibly unconfined) endpoint?
+fn line_is_safe(line: &[u8], fixture_dir: &std::path::Path) -> Result<(), String> {
+    // a line that is not JSON never gets as far as a handler (the request parser is
+    // serde_json, not code under test)
+    if serde_json::from_slice::<J>(line).is_err() {
+        return Ok(());
+    }
+    let fx = fixture_dir.display().to_string();
+    for lit in string_literals_of(line) {
+        let template = match lit.strip_prefix(&fx) {
+            Some(rest) => format!("{{S}}{rest}"),
+            None => lit.clone(),
+        };
+        guard::check_template(&template).map_err(|why| format!("{}: {why}", cut(&lit, 120)))?;
+    }
+    Ok(())
+}
 
 use domain::{Cred, Extracted, GroupCase, Level, LineCase};
 use fixture::{Cfg, Fixture, ProbeState, Reply, Template, ADMIN_TOKEN, CANARIES};
@@ -104,6 +159,8 @@ struct Env {
     graveyard: RefCell<Vec<std::thread::JoinHandle<()>>>,
     /// role the endpoint names when a viewer asks for `config.set {key: value}` (canonical key)
     cfg_req: BTreeMap<String, Level>,
+    unsafe_skipped: RefCell<u64>,
+    moat_top: std::path::PathBuf,
 }
 
 impl Env {
@@ -115,6 +172,11 @@ impl Env {
     }
 
     fn retire(&self, fx: Fixture) {
+        if let Some(m) = moat() {
+            // an escaped write has been reported by the case that saw it; do not let it
+            // taint the cases that follow
+            m.purge(Some(&fx.dir));
+        }
         let (handle, problem) = fx.teardown();
         if let Some(e) = problem {
             self.notes.borrow_mut().insert(format!("teardown: {e}"));
@@ -214,7 +276,11 @@ impl Env {
                 .borrow_mut()
                 .insert(format!("teardown: {} fixture thread groups still alive at the end of the run", g.len()));
         }
-        let _ = std::fs::remove_dir_all(&self.tpl.base);
+        // leave the moat before it is removed
+        let _ = std::env::set_current_dir("/");
+        if self.moat_top.components().count() >= 3 {
+            let _ = std::fs::remove_dir_all(&self.moat_top);
+        }
     }
 
     fn fresh_id(&self) -> u64 {
@@ -254,6 +320,8 @@ fn fill(v: &J, fx: &Fixture, tpl: &Template) -> J {
                 (other, _) => other,
             }
         }
+        // "{S}..." = absolute path below the fixture directory (inside the scratch moat)
+        J::String(s) if s.starts_with("{S}") => J::String(format!("{}{}", fx.dir.display(), &s[3..])),
         J::String(s) => match s.as_str() {
             "$CODE" => json!(fx.pending_code),
             "$ALARM" => json!(fx.alarm_id),
@@ -398,6 +466,15 @@ fn one_request(
     fx: &mut Fixture,
     line: &[u8],
 ) -> Result<(ProbeState, Reply, ProbeState), String> {
+    if let Err(why) = line_is_safe(line, &fx.dir) {
+        // never hand such a string to a handler that might join it onto a path
+        *env.unsafe_skipped.borrow_mut() += 1;
+        env.notes
+            .borrow_mut()
+            .insert(format!("string guard: a request was not sent ({why})"));
+        let p = fx.probe();
+        return Ok((p.clone(), Reply::Timeout, p));
+    }
     let before = fx.probe();
     fx.set_request_clock();
     let mut reply = fx.exchange(line);
@@ -563,6 +640,11 @@ fn check_group_once(env: &Env, case: &GroupCase, probe: &mut Probe) -> Result<()
                 fx,
                 format!("(6) reply id {:?} does not answer request id {id}: replies out of step", parsed.id),
             );
+        }
+        // moat oracle: whoever asks, nothing may appear outside project_root
+        if !after.part("outside_project").is_empty() {
+            let found = after.part("outside_project").to_string();
+            return fail(fx, format!("handler wrote outside project_root: {found}"));
         }
         // (1) token configured, no valid credential: error, nothing changes, nothing revealed
         if lvl == Some(Level::Unauth) {
@@ -882,6 +964,10 @@ fn check_line(env: &Env, case: &LineCase, probe: &mut Probe) -> Result<(), Strin
         Ok(p) => p,
         Err(e) => return fail(fx, format!("(6) {e}")),
     };
+    if !after.part("outside_project").is_empty() {
+        let found = after.part("outside_project").to_string();
+        return fail(fx, format!("handler wrote outside project_root: {found}"));
+    }
     if !wellformed {
         if parsed.ok || parsed.has_result {
             return fail(fx, "(6) malformed line was served instead of answered with an error".into());
@@ -964,6 +1050,12 @@ fn send(
     let line = J::Object(obj).to_string();
     let (before, reply, after) = one_request(env, fx, line.as_bytes())?;
     let changed = before.diff(&after);
+    if !after.part("outside_project").is_empty() {
+        return Err(format!(
+            "handler wrote outside project_root: {} (request {ty:?})",
+            after.part("outside_project")
+        ));
+    }
     match reply {
         Reply::Line(raw) => {
             let parsed = parse_reply(&raw).map_err(|e| format!("(6) {e}: {}", cut(&raw, 200)))?;
@@ -1516,18 +1608,28 @@ fn run_pair_history(
     Ok(())
 }
 
-fn run(ctx: &mut RunCtx) {
-    install_panic_recorder();
-    let tier = ctx.tier;
-    let repo = crate::engine::repo_root();
-    let ex = match domain::extract(&repo) {
-        Ok(ex) => ex,
-        Err(e) => {
-            ctx.inconclusive(format!("request types cannot be extracted from the sources: {e}"));
-            return;
+/// Containment (see guard.rs): moat, privilege drop, working directory. None = no case may run.
+fn contain(ctx: &mut RunCtx) -> Option<std::path::PathBuf> {
+    if !crate::engine::verif_root().is_absolute() {
+        ctx.inconclusive("containment: TPV_ROOT must be an absolute path (the working directory is moved into the scratch moat)");
+        return None;
+    }
+    if let Some(p) = ctx.only_replay.clone() {
+        // the replay file must stay readable after the working directory and the identity changed
+        let copy = ctx.out_dir.join(format!("replay-input-{}.json", std::process::id()));
+        match std::fs::read(&p).and_then(|b| std::fs::write(&copy, b)) {
+            Ok(()) => {
+                use std::os::unix::fs::PermissionsExt;
+                let _ = std::fs::set_permissions(&copy, std::fs::Permissions::from_mode(0o644));
+                ctx.only_replay = Some(copy);
+            }
+            Err(e) => {
+                ctx.inconclusive(format!("containment: cannot copy replay file {}: {e}", p.display()));
+                return None;
+            }
         }
-    };
-    // scratch directories of earlier runs that were killed (watchdog) are removed
+    }
+    // scratch tops of earlier runs that were killed (watchdog) are removed
     if ctx.worker == 0 {
         if let Ok(rd) = std::fs::read_dir("/tmp") {
             for e in rd.flatten() {
@@ -1543,11 +1645,65 @@ fn run(ctx: &mut RunCtx) {
             }
         }
     }
-    let base = std::path::PathBuf::from(format!(
-        "/tmp/tpv-c18-{}-w{}",
-        std::process::id(),
-        ctx.worker
-    ));
+    // short path: unix socket addresses are limited to 108 bytes
+    let top = std::path::PathBuf::from(format!("/tmp/tpv-c18-{}-w{}", std::process::id(), ctx.worker));
+    let m = match guard::Moat::build(&top) {
+        Ok(m) => m,
+        Err(e) => {
+            ctx.inconclusive(format!("containment: {e}"));
+            return None;
+        }
+    };
+    match guard::drop_privileges(&m.top, &ctx.out_dir) {
+        Ok(true) => ctx.note("containment: started as root, dropped to uid/gid 65534 before the first request; fixtures (project root, pairing store, socket) 8 levels deep in a scratch moat, working directory inside the moat; every string of every request guarded (<= 6 parent-like components, absolute only inside the moat); moat oracle after every request"),
+        Ok(false) => ctx.note("containment: not root, no privilege drop; relies on the scratch moat (fixtures 8 levels deep, working directory inside it), the string guard (<= 6 parent-like components, absolute only inside the moat) and the moat oracle after every request"),
+        Err(e) => {
+            ctx.inconclusive(format!("containment: privilege drop failed, no case was run: {e}"));
+            return None;
+        }
+    }
+    for dir in [m.bottom.clone(), ctx.out_dir.clone()] {
+        let probe = dir.join(format!(".c18-write-test-{}", std::process::id()));
+        if let Err(e) = std::fs::write(&probe, b"x").and_then(|_| std::fs::remove_file(&probe)) {
+            ctx.inconclusive(format!(
+                "containment: cannot write in {} after the privilege drop ({e}); run from a location whose ancestors are world-searchable",
+                dir.display()
+            ));
+            return None;
+        }
+    }
+    if let Err(e) = std::env::set_current_dir(m.cwd()) {
+        ctx.inconclusive(format!("containment: cannot move the working directory into the moat: {e}"));
+        return None;
+    }
+    let foreign = m.foreign(None);
+    if !foreign.is_empty() {
+        ctx.inconclusive(format!("containment: the fresh moat is not empty: {foreign}"));
+        return None;
+    }
+    let bottom = m.bottom.clone();
+    if MOAT.set(m).is_err() {
+        ctx.inconclusive("containment: moat initialised twice");
+        return None;
+    }
+    Some(bottom)
+}
+
+fn run(ctx: &mut RunCtx) {
+    install_panic_recorder();
+    let tier = ctx.tier;
+    // read the sources under test while still privileged (the tree need not be world-readable)
+    let repo = crate::engine::repo_root();
+    let ex = match domain::extract(&repo) {
+        Ok(ex) => ex,
+        Err(e) => {
+            ctx.inconclusive(format!("request types cannot be extracted from the sources: {e}"));
+            return;
+        }
+    };
+    let Some(base) = contain(ctx) else {
+        return;
+    };
     let tpl = match Template::build(base) {
         Ok(t) => t,
         Err(e) => {
@@ -1596,6 +1752,8 @@ fn run(ctx: &mut RunCtx) {
         rebuilds: RefCell::new(0),
         graveyard: RefCell::new(Vec::new()),
         cfg_req: BTreeMap::new(),
+        unsafe_skipped: RefCell::new(0),
+        moat_top: moat().map(|m| m.top.clone()).unwrap_or_default(),
     };
     let mut env = env;
     // calibrate the parameter-dependent requirement: what does the endpoint demand for each
@@ -1764,13 +1922,19 @@ fn run(ctx: &mut RunCtx) {
             groups.extend(domain::config_spelling_cases(tok_cfg, key, true));
         }
         let n_cfg_spell = groups.len() - n_before;
+        // strings that look like paths in every string parameter (string guard: <= 6 parents,
+        // absolute only inside the moat); the moat oracle watches where files appear
+        let n_before_paths = groups.len();
+        groups.extend(domain::path_param_cases(tok_cfg, &types));
+        let n_paths = groups.len() - n_before_paths;
+        ctx.note(format!("path-like parameter cases: {n_paths} templates x 3 roles"));
         for ty in &types {
             groups.extend(domain::value_spelling_cases(tok_cfg, ty));
         }
         ctx.note(format!(
             "spelling cases: {} config.set key spellings/structures x 4 roles, {} respelt member values/names",
             n_cfg_spell,
-            groups.len() - n_before - n_cfg_spell
+            groups.len() - n_before - n_cfg_spell - n_paths
         ));
         for (i, g) in groups.iter().enumerate() {
             if i % ctx.nworkers.max(1) != ctx.worker {
@@ -1837,6 +2001,9 @@ fn run(ctx: &mut RunCtx) {
 
     env.shutdown();
     ctx.note(format!("fixtures built by this worker: {}", env.rebuilds.borrow()));
+    if *env.unsafe_skipped.borrow() > 0 {
+        ctx.note(format!("string guard: {} request(s) were not sent", env.unsafe_skipped.borrow()));
+    }
     for n in env.notes.borrow().iter() {
         ctx.note(n.clone());
     }
